@@ -56,8 +56,14 @@ type verifC33World struct {
 	cashedByUs   [verifC33N]*big.Int // chain: TransAmount(p, self)  (we cashed from peer p)
 	balance      *big.Int
 	chainDown    bool // the per-peer chain reads (TransAmount) fail: fallback to the persisted chain totals
+	// unlisted[p]: the contract does not know peer p (nothing was ever cashed
+	// between p and this node): p is on neither address list and its on-chain
+	// totals are 0. Such a peer is restored after a restart only if the store's
+	// own records name it.
+	unlisted [verifC33N]bool
 
-	delivered         [verifC33N]*big.Int // payout of the last cheque delivered to p
+	delivered         [verifC33N]*big.Int // payout of the last cheque delivered to p (or shown by p and acknowledged in a handshake)
+	totalsWritten     [verifC33N]bool     // a consumed- or served-traffic update addressed p (it persists a total for p)
 	accepted          [verifC33N]*big.Int // payout of the last cheque accepted from p
 	restarted         bool
 	emitsAfterRestart int
@@ -69,10 +75,20 @@ type verifC33Chain struct {
 }
 
 func (c *verifC33Chain) TransferredAddress(common.Address) ([]common.Address, error) {
-	return []common.Address{verifC33CA[1]}, nil
+	var l []common.Address
+	if !c.w.unlisted[1] {
+		l = append(l, verifC33CA[1])
+	}
+	return l, nil
 }
 func (c *verifC33Chain) RetrievedAddress(common.Address) ([]common.Address, error) {
-	return []common.Address{verifC33CA[0], verifC33CA[1]}, nil
+	var l []common.Address
+	for p := 0; p < verifC33N; p++ {
+		if !c.w.unlisted[p] {
+			l = append(l, verifC33CA[p])
+		}
+	}
+	return l, nil
 }
 func (c *verifC33Chain) BalanceOf(a common.Address) (*big.Int, error) {
 	if a == verifC33Self {
@@ -127,8 +143,11 @@ func (s *verifC33Store) ReceiveCheque(_ context.Context, c *chequePkg.SignedCheq
 	s.recvCheque[p] = &chequePkg.SignedCheque{Cheque: chequePkg.Cheque{Recipient: c.Recipient, Beneficiary: c.Beneficiary, CumulativePayout: verifC33cp(c.CumulativePayout)}, Signature: []byte{1}}
 	return amount, nil
 }
-func (s *verifC33Store) VerifyCheque(*chequePkg.SignedCheque, int64) (common.Address, error) {
-	panic("unused")
+
+// VerifyCheque: signature recovery is C30's business; every cheque is taken to
+// be signed by its stated issuer.
+func (s *verifC33Store) VerifyCheque(c *chequePkg.SignedCheque, _ int64) (common.Address, error) {
+	return c.Beneficiary, nil
 }
 func (s *verifC33Store) PutSendCheque(_ context.Context, c *chequePkg.Cheque, a common.Address) error {
 	s.sendCheque[verifC33idx(a)] = &chequePkg.Cheque{Recipient: c.Recipient, Beneficiary: c.Beneficiary, CumulativePayout: verifC33cp(c.CumulativePayout)}
@@ -296,6 +315,9 @@ func verifC33settle() {
 // the chain only moves forward (new value = old value + arbitrary increment)
 func verifC33moveChain(w *verifC33World) {
 	for p := 0; p < verifC33N; p++ {
+		if w.unlisted[p] {
+			continue // nothing cashed between this peer and the node
+		}
 		w.cashedByPeer[p] = new(big.Int).Add(w.cashedByPeer[p], zzverif.BigNonNeg("cashedByPeer+"))
 		w.cashedByUs[p] = new(big.Int).Add(w.cashedByUs[p], zzverif.BigNonNeg("cashedByUs+"))
 	}
@@ -324,26 +346,51 @@ func verifC33snapshot(s *Service, p int) verifC33Totals {
 	return verifC33Totals{verifC33cp(tr.retrieveTraffic), verifC33cp(tr.transferTraffic), verifC33cp(tr.retrieveChequeTraffic), verifC33cp(tr.transferChequeTraffic)}
 }
 
-func verifC33step(s *Service, w *verifC33World, nops int) {
+// operations of a history
+const (
+	verifC33opCredit    = iota // PutRetrieveTraffic
+	verifC33opDebit            // PutTransferTraffic
+	verifC33opPay              // Pay
+	verifC33opReceive          // ReceiveCheque
+	verifC33opRefresh          // chain moves on + Init
+	verifC33opHandshake        // Handshake: the peer shows a cheque of ours
+)
+
+var verifC33basicOps = []int{verifC33opCredit, verifC33opDebit, verifC33opPay, verifC33opReceive, verifC33opRefresh}
+
+func verifC33step(s *Service, w *verifC33World, ops []int) {
 	ctx := context.Background()
 	p := zzverif.Choose("peer", verifC33N)
-	switch zzverif.Choose("op", nops) {
-	case 0: // we consumed traffic from p (we owe more)
+	switch ops[zzverif.Choose("op", len(ops))] {
+	case verifC33opCredit: // we consumed traffic from p (we owe more)
 		err := s.PutRetrieveTraffic(verifC33OV[p], zzverif.BigNonNeg("amount"))
 		zzverif.Assert(err == nil, "PutRetrieveTraffic succeeds")
-	case 1: // we served traffic to p
+		w.totalsWritten[p] = true
+	case verifC33opDebit: // we served traffic to p
 		err := s.PutTransferTraffic(verifC33OV[p], zzverif.BigNonNeg("amount"))
 		zzverif.Assert(err == nil, "PutTransferTraffic succeeds")
-	case 2: // cheque send attempt
+		w.totalsWritten[p] = true
+	case verifC33opPay: // cheque send attempt
 		_ = s.Pay(ctx, verifC33OV[p], verifC33threshold())
-	case 3: // cheque received from p (accepted iff increasing)
+	case verifC33opReceive: // cheque received from p (accepted iff increasing)
 		c := &chequePkg.SignedCheque{Cheque: chequePkg.Cheque{Recipient: verifC33Self, Beneficiary: verifC33CA[p], CumulativePayout: zzverif.BigNonNeg("payout")}, Signature: []byte{1}}
 		if s.ReceiveCheque(ctx, verifC33OV[p], c) == nil {
 			w.accepted[p] = verifC33cp(c.CumulativePayout)
 		}
-	case 4: // refresh
+	case verifC33opRefresh: // refresh
 		verifC33moveChain(w)
 		zzverif.Assert(s.Init() == nil, "Init succeeds")
+	case verifC33opHandshake:
+		// (Re)connection handshake: the peer shows the last cheque it holds from
+		// this node, any amount. It may exceed the node's own record (the node
+		// lost state, or stopped between sending the cheque and recording it);
+		// the node then adopts the cheque. Once the node has acknowledged the
+		// cheque, its amount counts as paid.
+		c := chequePkg.SignedCheque{Cheque: chequePkg.Cheque{Recipient: verifC33CA[p], Beneficiary: verifC33Self, CumulativePayout: zzverif.BigNonNeg("shownPayout")}, Signature: []byte{1}}
+		if s.Handshake(verifC33OV[p], verifC33CA[p], c) == nil && c.CumulativePayout.Cmp(w.delivered[p]) > 0 {
+			w.delivered[p] = verifC33cp(c.CumulativePayout)
+			zzverif.Reach("C33-newer-cheque-acknowledged-in-handshake")
+		}
 	}
 	verifC33settle()
 }
@@ -351,16 +398,21 @@ func verifC33step(s *Service, w *verifC33World, nops int) {
 // VerifC33_Restart: history on instance 1, restart, totals on instance 2
 // (cheque store = typed stub).
 func VerifC33_Restart() {
-	// quick: 2 steps over credit/debit/pay/receive; thorough: 3 steps over credit/debit/pay
-	// (received cheques do not interact with the other three; they stay covered at 2 steps
-	// by the quick tier and by VerifC33_RealStore)
-	verifC33run(&verifC33Store{}, zzverif.Param("steps", 2, 3), zzverif.Param("ops", 4, 3), false, "C33-restart")
+	// quick: 2 steps over credit/debit/pay/handshake (received cheques: VerifC33_RealStore);
+	// thorough: 3 steps over credit/debit/pay (received cheques and handshakes stay covered at
+	// 2 steps by VerifC33_RealStore)
+	ops := []int{verifC33opCredit, verifC33opDebit, verifC33opPay, verifC33opHandshake}
+	if zzverif.Param("threeSteps", 0, 1) == 1 {
+		ops = ops[:3]
+	}
+	verifC33run(&verifC33Store{}, zzverif.Param("steps", 2, 3), ops, false, [verifC33N]bool{}, "C33-restart")
 }
 
-// verifC33run: steps operations out of the first nops kinds on instance 1, then the restart;
-// withChainDown: the per-peer chain reads of the restart Init may all fail.
-func verifC33run(st chequePkg.ChequeStore, steps, nops int, withChainDown bool, reach string) {
-	w := &verifC33World{balance: big.NewInt(0)}
+// verifC33run: steps operations out of ops on instance 1, then the restart;
+// withChainDown: the per-peer chain reads of the restart Init may all fail;
+// unlisted: peers the contract does not know (see verifC33World).
+func verifC33run(st chequePkg.ChequeStore, steps int, ops []int, withChainDown bool, unlisted [verifC33N]bool, reach string) {
+	w := &verifC33World{balance: big.NewInt(0), unlisted: unlisted}
 	for p := 0; p < verifC33N; p++ {
 		w.cashedByPeer[p], w.cashedByUs[p] = big.NewInt(0), big.NewInt(0)
 		w.delivered[p], w.accepted[p] = big.NewInt(0), big.NewInt(0)
@@ -369,7 +421,7 @@ func verifC33run(st chequePkg.ChequeStore, steps, nops int, withChainDown bool, 
 	s1 := verifC33NewService(w, st)
 	zzverif.Assert(s1.Init() == nil, "first Init succeeds")
 	for i := 0; i < steps; i++ {
-		verifC33step(s1, w, nops)
+		verifC33step(s1, w, ops)
 	}
 
 	// ---- the node stops here; only the store and the chain survive ----
@@ -390,6 +442,24 @@ func verifC33run(st chequePkg.ChequeStore, steps, nops int, withChainDown bool, 
 	s2 := verifC33NewService(w, st)
 	zzverif.Assert(s2.Init() == nil, "Init after restart succeeds")
 	w.chainDown = false
+
+	// Known finding (see notes/C33.md): trafficInit restores the peers named by
+	// the chain's address lists and by the stored traffic totals only, although
+	// it has the stored cheques in hand. A peer new to the contract for which
+	// no traffic total was ever written, but a cheque was stored, is skipped.
+	onlyReceived, onlySent := false, false
+	for p := 0; p < verifC33N; p++ {
+		if w.unlisted[p] && !w.totalsWritten[p] {
+			if w.accepted[p].Sign() > 0 {
+				onlyReceived = true
+			}
+			if w.delivered[p].Sign() > 0 {
+				onlySent = true
+			}
+		}
+	}
+	zzverif.Region("C33/new-peer-known-only-by-its-received-cheque", onlyReceived)
+	zzverif.Region("C33/new-peer-known-only-by-its-adopted-sent-cheque", onlySent)
 
 	for p := 0; p < verifC33N; p++ {
 		after := verifC33snapshot(s2, p)
